@@ -45,7 +45,7 @@ def build_axis(ax):
     raise AssertionError(form)
 
 
-def compare(ctx: Ctx, h, rows, weights, wkind, what="", narrow_int=False):
+def compare(ctx: Ctx, h, rows, weights, wkind, what="", narrow_int=False, narrow_float=False):
     axes_pairs = [model.pairs_of(b) for b in h.bins]
     incl = [bool(b.includes_right_edge) for b in h.binnings]
     for ps in axes_pairs:
@@ -64,6 +64,10 @@ def compare(ctx: Ctx, h, rows, weights, wkind, what="", narrow_int=False):
     if narrow_int:
         # integer weights of a narrow type: the histogram may keep that type or widen it, but stays integral
         require(h.dtype.kind == "i", "dtype", f"{what}{h.dtype} for narrow integer weights")
+        exp_dtype = h.dtype
+    if narrow_float:
+        # float weights of a narrow type: some float type (the values below decide whether it was wide enough)
+        require(h.dtype.kind == "f", "dtype", f"{what}{h.dtype} for narrow float weights")
         exp_dtype = h.dtype
     require(h.dtype == exp_dtype == h.frequencies.dtype, "dtype", f"{what}{h.dtype}/{h.frequencies.dtype} vs {exp_dtype}")
     for idx in itertools.product(*[range(s) for s in shape]):
@@ -121,7 +125,7 @@ def check_explicit(case, ctx: Ctx):
     arr = np.array(rows, dtype=float).reshape(len(rows), d)
     warr = None
     if weights is not None:
-        warr = np.array(weights, dtype=(case.get("wdtype") or np.int64) if wkind == "int" else np.float64)
+        warr = np.array(weights, dtype=(case.get("wdtype") or np.int64) if wkind == "int" else (case.get("fwdtype") or np.float64))
     entry = case["entry"]
     ctx.label("entry_" + entry, f"d{d}", f"w_{wkind}")
     kwargs = {}
@@ -184,7 +188,7 @@ def check_explicit(case, ctx: Ctx):
                 require(bool(h.binnings[i].includes_right_edge) == ax["incl"], "incl_flag_lost", f"axis {i}: declared {h.binnings[i].includes_right_edge}, requested {ax['incl']}")
     expected_class = "Histogram2D" if d == 2 else "HistogramND"
     require(type(h).__name__ == expected_class, "class", type(h).__name__)
-    axes_pairs, incl, m = compare(ctx, h, rows, weights, wkind, narrow_int=bool(case.get("wdtype")))
+    axes_pairs, incl, m = compare(ctx, h, rows, weights, wkind, narrow_int=bool(case.get("wdtype")), narrow_float=bool(case.get("fwdtype")))
     label_rows(ctx, axes_pairs, incl, rows, weights)
     shape = h.frequencies.shape
     if len(set(shape)) == len(shape):
@@ -256,6 +260,13 @@ def explicit_cases(draw, tier="quick"):
         wdtype = draw(st.sampled_from(["int8", "uint8", "int16", "int32", "uint16"]))
         heavy = {"int8": [100, 120, 7, 0], "uint8": [200, 255, 16, 0], "int16": [30000, 200, 3, 0], "int32": [100000, 2 ** 30, 5, 0], "uint16": [60000, 300, 1, 0]}[wdtype]
         weights = [draw(st.sampled_from(heavy)) for _ in weights]
+    fwdtype = None
+    if wkind in ("dyadic", "float") and draw(st.integers(0, 3)) == 0:
+        # float weights stored in a narrow type whose squares / sums leave that type (all exactly representable in it)
+        fwdtype = draw(st.sampled_from(["float16", "float32"]))
+        heavy = {"float16": [300.0, 1024.0, 0.5, 60000.0, 0.0], "float32": [2.0 ** 100, 2.0 ** 70, 3.0, 0.5, 2.0 ** 127]}[fwdtype]
+        weights = [draw(st.sampled_from(heavy)) for _ in weights]
+        wkind = "float"
     incl_kwarg = None
     special = draw(st.integers(0, 5))
     if special == 0 and all(not model.gaps([tuple(p) for p in ax["pairs"]]) for ax in axes) and n:
@@ -290,7 +301,7 @@ def explicit_cases(draw, tier="quick"):
     perm = draw(st.permutations(list(range(d))))
     return {"axes": axes, "rows": rows, "wkind": wkind, "weights": weights, "entry": entry,
             "dropna": draw(st.sampled_from([True, True, True, False])), "perm": list(perm),
-            "wform": "array" if wdtype else draw(st.sampled_from(["array", "list"])), "wdtype": wdtype, "incl_kwarg": incl_kwarg}
+            "wform": "array" if wdtype or fwdtype else draw(st.sampled_from(["array", "list"])), "wdtype": wdtype, "fwdtype": fwdtype, "incl_kwarg": incl_kwarg}
 
 
 # ---------------------------------------------------------------------------------
